@@ -8,7 +8,7 @@ from vfw.hspec import H, I, bind
 
 MISUSE = ["param__ARGS", "param__KWARGS", "kwarg__ARGS_at_call", "kwarg__KWARGS_at_call", "param_result_with_post",
           "param_OLD_with_post", "param_result_pre_only_is_fine", "invariant_condition_extra_param",
-          "invariant_condition_other_param", "invariant_coroutine_condition", "snapshot_on_bare", "snapshot_above_pre_only",
+          "invariant_condition_other_param", "invariant_coroutine_condition", "invariant_condition_returns_coroutine", "snapshot_on_bare", "snapshot_above_pre_only",
           "error_int", "error_str", "error_non_exception_class", "error_object", "error_list"]
 DECOS = ["require", "ensure", "invariant"]
 TARGETS = ["function", "async_function", "method", "staticmethod", "classmethod", "property_getter"]
@@ -108,6 +108,21 @@ def _check(m: str, deco: str, target: str) -> Tuple[str, bool]:
         except ValueError:
             return "ValueError at definition", True
         return "accepted", False
+    if m == "invariant_condition_returns_coroutine":
+        if deco != "invariant":
+            return "n/a", True
+        import warnings
+
+        async def acheck(self: Any) -> bool:
+            return False
+        K = icontract.invariant(lambda self: acheck(self))(type("K", (), {"m": lambda self: 1}))
+        with warnings.catch_warnings():
+            warnings.simplefilter("ignore")
+            try:
+                K()
+            except ValueError:
+                return "ValueError at the first check", True
+        return "coroutine taken as truthy", False
     if m in ("snapshot_on_bare", "snapshot_above_pre_only"):
         if deco == "invariant" or target == "property_getter":
             return "n/a", True
